@@ -35,12 +35,37 @@
  *        scheduler (src/sched/basic_wait.c, which blocks in pop_wait(0.1 s)) on a
  *        FIFO / FIFO_WAIT pool; step: p (create a ULT in the pool), a <t> (clock)
  *      output:  BW ran=[ids in the order they ran] joined
+ *
+ *   RC <rounds> <k> <nspin> <nblock>     concurrency monitor (not replayed on the Coq
+ *        model): a signal racing the waiter's "release the mutex and become a
+ *        waiter" step.  Frozen virtual clock, deadline 10^6 s in the virtual future,
+ *        so a wait can end only by a signal.  Per round:
+ *          waiter (k = e external pthread | 1|2|3 ULT on that execution stream):
+ *              lock(m); flag = 0; armed = r; rc = ABT_cond_timedwait(c, m, deadline);
+ *              unlock(m)
+ *          nspin signaller pthreads spin on ABT_mutex_trylock(m); the one that finds
+ *              armed == r (only possible after the waiter gave m up inside
+ *              ABT_cond_timedwait) does armed = 0; flag = 1; ABT_cond_signal(c);
+ *              unlock(m): exactly one signal per round, sent while the waiter is
+ *              committed to the wait and (virtual) ages before its deadline
+ *          nblock pthreads do ABT_mutex_lock(m); ABT_mutex_unlock(m) (they sleep on
+ *              the mutex, so the waiter's unlock has wake-up work to do)
+ *        The driver thread waits for the round to complete.  Only if the signal has
+ *        been issued and the waiter is nevertheless seen queued on the cond (locked
+ *        walk, for >= 2 ms), or has not returned within the stuck bound, it advances
+ *        the virtual clock past the deadline to get the waiter back.  Verdict by
+ *        the waiter's return code alone: ABT_ERR_COND_TIMEDOUT in a round whose
+ *        ABT_cond_signal had returned before the clock moved = lost.  A round in
+ *        which no signaller obtained the mutex within 60 s (starved machine) is not
+ *        judged and is run again.
+ *      output:  RC rounds=<judged> ok=<SUCCESS> lost=<n> other=<n>
  */
 #include "abti.h"
 #include "vh_common.h"
 #include <pthread.h>
 #include <time.h>
 #include <unistd.h>
+#include <sched.h>
 #include <sys/syscall.h>
 
 #define MAXW 12
@@ -810,6 +835,276 @@ static void do_bw(char *line)
     fflush(stdout);
 }
 
+/* ------------------------------------------------------------ RC: signal vs. mutex release */
+#define RC_MAXH 4
+#define RC_FAR 4000000L /* ticks = 10^6 virtual seconds */
+static struct {
+    int kind, nspin, nblock;
+    volatile int stop;
+    volatile int round;   /* published by the driver: rounds <= round may run */
+    volatile int started; /* waiter: holds the mutex of this round, helpers may contend */
+    volatile int armed;   /* protected by g_mutex: round whose waiter is committed and not yet signalled */
+    volatile int flag;    /* protected by g_mutex: the predicate */
+    volatile int sig_done;       /* round whose ABT_cond_signal has returned */
+    volatile uint64_t sig_clock; /* virtual clock (raw double bits) read after that return */
+    volatile long deadline;      /* ticks, of the current round */
+    volatile int rc, flag_seen;  /* of the round `done` */
+    volatile int done;           /* last round the waiter has completed */
+    volatile int sdone[RC_MAXH], bdone[RC_MAXH];
+} g_rc;
+
+#define RC_LD(x) __atomic_load_n(&(x), __ATOMIC_ACQUIRE)
+#define RC_ST(x, v) __atomic_store_n(&(x), (v), __ATOMIC_RELEASE)
+
+static void rc_spin_real(double secs)
+{
+    double t0 = real_now();
+    while (real_now() - t0 < secs)
+        ;
+}
+
+/* wait (hot, then politely) until *p >= r; 0 when the case is being stopped */
+static int rc_await(volatile int *p, int r, int is_ult)
+{
+    long spins = 0;
+    while (__atomic_load_n(p, __ATOMIC_ACQUIRE) < r) {
+        if (RC_LD(g_rc.stop))
+            return 0;
+        if (is_ult)
+            ABT_thread_yield();
+        else if (++spins > 20000)
+            sched_yield();
+    }
+    return 1;
+}
+
+static void rc_waiter_body(void *arg)
+{
+    int r = 0;
+    (void)arg;
+    for (;;) {
+        r++;
+        if (!rc_await(&g_rc.round, r, g_rc.kind != 0))
+            return;
+        ABT_mutex_lock(g_mutex);
+        g_rc.flag = 0;
+        g_rc.armed = r;
+        RC_ST(g_rc.started, r);
+        /* let the blockers fall asleep on the mutex and the spinners start spinning */
+        rc_spin_real(30e-6);
+        long d = g_rc.deadline;
+        struct timespec ts;
+        ts.tv_sec = 1000 + d / 4;
+        ts.tv_nsec = (d % 4) * 250000000L;
+        int rc = ABT_cond_timedwait(g_cond, g_mutex, &ts);
+        g_rc.flag_seen = g_rc.flag;
+        g_rc.armed = 0; /* a round given up by the driver must not be signalled later */
+        ABT_mutex_unlock(g_mutex);
+        g_rc.rc = rc;
+        RC_ST(g_rc.done, r);
+    }
+}
+
+static void *rc_waiter_pthread(void *arg)
+{
+    rc_waiter_body(arg);
+    return NULL;
+}
+
+static void *rc_spinner(void *arg)
+{
+    int me = (int)(intptr_t)arg, r = 0;
+    for (;;) {
+        r++;
+        if (!rc_await(&g_rc.started, r, 0))
+            return NULL;
+        long spins = 0;
+        while (RC_LD(g_rc.sig_done) < r && RC_LD(g_rc.done) < r && !RC_LD(g_rc.stop)) {
+            if (ABT_mutex_trylock(g_mutex) == ABT_SUCCESS) {
+                /* the waiter holds the mutex from before `armed = r` until it gives it up
+                 * inside ABT_cond_timedwait: armed == r here means it is inside that call */
+                if (g_rc.armed == r) {
+                    g_rc.armed = 0;
+                    g_rc.flag = 1;
+                    ABT_cond_signal(g_cond);
+                    g_rc.sig_clock = __atomic_load_n(&g_clock_store.u, __ATOMIC_ACQUIRE);
+                    RC_ST(g_rc.sig_done, r);
+                }
+                ABT_mutex_unlock(g_mutex);
+            } else if (++spins > 2000000) {
+                sched_yield(); /* the waiter has not reached its wait for a long time */
+            }
+        }
+        RC_ST(g_rc.sdone[me], r);
+    }
+}
+
+static void *rc_blocker(void *arg)
+{
+    int me = (int)(intptr_t)arg, r = 0;
+    for (;;) {
+        r++;
+        if (!rc_await(&g_rc.started, r, 0))
+            return NULL;
+        ABT_mutex_lock(g_mutex);
+        ABT_mutex_unlock(g_mutex);
+        RC_ST(g_rc.bdone[me], r);
+    }
+}
+
+static int rc_cond_queued(void)
+{
+    ABTI_cond *p_cond = ABTI_cond_get_ptr(g_cond);
+    ABTD_spinlock_acquire(&p_cond->lock);
+    int q = p_cond->waitlist.p_head != NULL;
+    ABTD_spinlock_release(&p_cond->lock);
+    return q;
+}
+
+static void do_rc(char *line)
+{
+    int rounds = 0, nspin = 1, nblock = 0, i;
+    char kc = 'e';
+    if (sscanf(line, "RC %d %c %d %d", &rounds, &kc, &nspin, &nblock) != 4)
+        VH_DIE("bad RC line");
+    if (rounds < 0 || nspin < 1 || nspin > RC_MAXH || nblock < 0 || nblock > RC_MAXH ||
+        !(kc == 'e' || (kc >= '1' && kc < '1' + NES)))
+        VH_DIE("bad RC parameters");
+    memset(&g_rc, 0, sizeof(g_rc));
+    g_rc.kind = kc == 'e' ? 0 : kc - '0';
+    g_rc.nspin = nspin;
+    g_rc.nblock = nblock;
+    g_now_ticks = 0;
+    set_clock_ticks(0);
+    if (ABT_cond_create(&g_cond) != ABT_SUCCESS || ABT_mutex_create(&g_mutex) != ABT_SUCCESS)
+        VH_DIE("create");
+    pthread_t wpt, spt[RC_MAXH], bpt[RC_MAXH];
+    ABT_thread wth = ABT_THREAD_NULL;
+    if (g_rc.kind == 0) {
+        if (pthread_create(&wpt, NULL, rc_waiter_pthread, NULL))
+            VH_DIE("pthread_create");
+    } else if (ABT_thread_create(g_espool[g_rc.kind - 1], rc_waiter_body, NULL, ABT_THREAD_ATTR_NULL,
+                                 &wth) != ABT_SUCCESS)
+        VH_DIE("ABT_thread_create");
+    for (i = 0; i < nspin; i++)
+        if (pthread_create(&spt[i], NULL, rc_spinner, (void *)(intptr_t)i))
+            VH_DIE("pthread_create");
+    for (i = 0; i < nblock; i++)
+        if (pthread_create(&bpt[i], NULL, rc_blocker, (void *)(intptr_t)i))
+            VH_DIE("pthread_create");
+
+    int r = 0, judged = 0, ok = 0, lost = 0, other = 0, unjudged = 0, hung = 0;
+    while (judged < rounds && unjudged <= 20) {
+        r++;
+        g_rc.deadline = g_now_ticks + RC_FAR;
+        double t0 = real_now(), t_sig = 0, t_q = 0;
+        int sig_before_clock = 0;
+        RC_ST(g_rc.round, r);
+        while (RC_LD(g_rc.done) < r) {
+            double now = real_now();
+            if (RC_LD(g_rc.sig_done) >= r) {
+                if (t_sig == 0)
+                    t_sig = now;
+                /* the signal has returned.  Unchanged code: the waiter was queued before it
+                 * gave the mutex up, so the signal has dequeued it and the list stays empty. */
+                if (rc_cond_queued() && RC_LD(g_rc.done) < r) {
+                    if (t_q == 0)
+                        t_q = now;
+                    else if (now - t_q > 0.002)
+                        break; /* signalled, yet queued and waiting: only the clock gets it back */
+                } else {
+                    t_q = 0;
+                }
+                if (now - t_sig > bound_secs()) {
+                    fprintf(stderr, "c19 harness: RC round %d: signalled waiter neither returned nor queued "
+                                    "within %.2f s\n", r, bound_secs());
+                    note_stuck();
+                    break;
+                }
+            } else if (now - t0 > 60.0) {
+                fprintf(stderr, "c19 harness: RC round %d: no signaller obtained the mutex within 60 s; "
+                                "round not judged\n", r);
+                break;
+            }
+            nap_us(20);
+        }
+        if (RC_LD(g_rc.done) < r) {
+            /* signal issued (its return observed) strictly before the clock moves? */
+            sig_before_clock = RC_LD(g_rc.sig_done) >= r;
+            g_now_ticks = g_rc.deadline + 1;
+            set_clock_ticks(g_now_ticks);
+            double t1 = real_now();
+            while (RC_LD(g_rc.done) < r && real_now() - t1 < 20.0)
+                nap_us(50);
+            if (RC_LD(g_rc.done) < r) {
+                hung = 1;
+                other++;
+                judged++;
+                break;
+            }
+        } else {
+            sig_before_clock = RC_LD(g_rc.sig_done) >= r;
+        }
+        int rc = g_rc.rc;
+        int clock_moved = g_now_ticks > g_rc.deadline;
+        if (sig_before_clock) {
+            /* belt and braces: the clock value the signaller read after ABT_cond_signal
+             * returned must be before the deadline */
+            union {
+                double d;
+                uint64_t u;
+            } v;
+            v.u = g_rc.sig_clock;
+            if (!(v.d < 1000.0 + 0.25 * (double)g_rc.deadline))
+                sig_before_clock = 0;
+        }
+        if (rc == ABT_SUCCESS && g_rc.flag_seen == 1) {
+            ok++;
+            judged++;
+        } else if (rc == ABT_ERR_COND_TIMEDOUT && !clock_moved) {
+            other++; /* timed out although the clock never reached the deadline */
+            judged++;
+        } else if (rc == ABT_ERR_COND_TIMEDOUT && sig_before_clock) {
+            if (!lost)
+                fprintf(stderr, "c19 harness: RC round %d: ABT_cond_timedwait returned ABT_ERR_COND_TIMEDOUT "
+                                "although ABT_cond_signal had returned before the clock reached the deadline "
+                                "(flag=%d)\n", r, g_rc.flag_seen);
+            lost++;
+            judged++;
+        } else if (rc == ABT_ERR_COND_TIMEDOUT) {
+            unjudged++; /* the driver gave the round up before any signal: says nothing */
+        } else {
+            other++; /* another error code, or SUCCESS without a signal */
+            judged++;
+        }
+        /* helpers finish the round */
+        double t2 = real_now();
+        for (i = 0; i < nspin; i++)
+            while (RC_LD(g_rc.sdone[i]) < r && real_now() - t2 < 60.0)
+                nap_us(20);
+        for (i = 0; i < nblock; i++)
+            while (RC_LD(g_rc.bdone[i]) < r && real_now() - t2 < 60.0)
+                nap_us(20);
+    }
+    printf("RC rounds=%d ok=%d lost=%d other=%d\n", judged, ok, lost, other);
+    fflush(stdout);
+    if (hung) {
+        fprintf(stderr, "c19 harness: RC waiter never returned; giving up on this process\n");
+        _exit(4);
+    }
+    RC_ST(g_rc.stop, 1);
+    if (g_rc.kind == 0)
+        pthread_join(wpt, NULL);
+    else
+        ABT_thread_free(&wth);
+    for (i = 0; i < nspin; i++)
+        pthread_join(spt[i], NULL);
+    for (i = 0; i < nblock; i++)
+        pthread_join(bpt[i], NULL);
+    ABT_cond_free(&g_cond);
+    ABT_mutex_free(&g_mutex);
+}
+
 int main(int argc, char **argv)
 {
     FILE *f = argc > 1 ? fopen(argv[1], "r") : stdin;
@@ -846,6 +1141,8 @@ int main(int argc, char **argv)
             do_pw(line);
         else if (line[0] == 'B' && line[1] == 'W')
             do_bw(line);
+        else if (line[0] == 'R' && line[1] == 'C')
+            do_rc(line);
         else if (line[0] && line[0] != '#')
             VH_DIE("bad line '%s'", line);
         free(line);
